@@ -125,9 +125,10 @@ Definition fr_dur (o : opts) (n : note) : Z :=
 
 Definition fr_off_nom (o : opts) (mt : Q) (n : note) : Z := fr_on o mt n + fr_dur o n.
 
-(* the pr_offset column the code ends with (third column of the index rows) *)
+(* the pr_offset column the code ends with (third column of the index rows); in onset-only mode
+   only the onset frame is filled and the column is onset + 1 *)
 Definition fr_off (o : opts) (mt : Q) (n : note) : Z :=
-  if o_onset_only o then fr_off_nom o mt n
+  if o_onset_only o then fr_on o mt n + 1
   else Z.max (fr_on o mt n + 1) (fr_off_nom o mt n - (if o_note_sep o then 1 else 0)).
 
 (* one past the last frame the note fills *)
@@ -445,10 +446,37 @@ Definition qnote_eqb (x y : Z * Q * Q * Z) : bool :=
   let '(p1, a1, d1, v1) := x in let '(p2, a2, d2, v2) := y in
   (p1 =? p2) && Qeq_bool a1 a2 && Qeq_bool d1 d2 && (v1 =? v2).
 
+(* lists equal up to order (the property asks that every note comes back, not in which order) *)
+Fixpoint remove_first {A} (eqb : A -> A -> bool) (x : A) (l : list A) : option (list A) :=
+  match l with
+  | [] => None
+  | y :: r => if eqb x y then Some r else option_map (cons y) (remove_first eqb x r)
+  end.
+
+Fixpoint perm_eqb {A} (eqb : A -> A -> bool) (a b : list A) : bool :=
+  match a with
+  | [] => match b with [] => true | _ => false end
+  | x :: r => match remove_first eqb x b with Some b' => perm_eqb eqb r b' | None => false end
+  end.
+
 Definition check_decode (x : Z * Z * list cell * Z * option (list (Z * Q * Q * Z))) : bool :=
   let '(rows, cols, m, td, ob) := x in
   match pianoroll_to_notearray rows cols m td, ob with
   | None, None => true
-  | Some l, Some l' => list_eqb qnote_eqb l l'
+  | Some l, Some l' => perm_eqb qnote_eqb l l'
   | _, _ => false
+  end.
+
+(* round trip: the model's decoder on the model's roll of the case = the note array the implementation
+   decoded from its own roll (up to order) *)
+Definition check_roundtrip (x : copts * narr * Z * option (list (Z * Q * Q * Z))) : bool :=
+  let '(c, a, td, ob) := x in
+  match compute_pianoroll c a with
+  | None => match ob with None => true | Some _ => false end
+  | Some R =>
+      match pianoroll_to_notearray (r_rows R) (r_cols R) (r_cells R) td, ob with
+      | Some l, Some l' => perm_eqb qnote_eqb l l'
+      | None, None => true
+      | _, _ => false
+      end
   end.
